@@ -1680,6 +1680,36 @@ def one_record_per_call(chk, rule):
                "each call reads exactly one record and reports on that record (record read inside a loop: %s; further reads / recursive calls: %s)" % (in_cycle, selfcalls or "none"))
 
 
+def readers_do_not_judge(chk, rule):
+    """The two genotype readers hand on what noodles decoded, for every column: whether a genotype is usable is decided in read_site, after the
+    sample selection.  They call no workspace function on the record (none exists on the reviewed tree) and build no genotype::Error of their
+    own (a ploidy test in the reader fails the run for a sample that is not even listed)."""
+    prog = chk.prog
+    for kind in ("vcf", "bcf"):
+        f = chk.fn("sfs_core::input::genotype::reader::%s::Reader::<R>::read_genotypes" % kind)
+        if f is None:
+            continue
+        unit = [f]
+        i = 0
+        while i < len(unit):
+            unit += [c for c in prog.closures_of(unit[i].path) if c not in unit]
+            i += 1
+        local = sorted({callee_name(t["callee"]) for g in unit for b, t in g.calls() if t["callee"].get("local") and
+                        (prog.fn(t["callee"].get("resolved") or t["callee"].get("path") or "") is not None or "sfs_core::" in callee_name(t["callee"]))} |
+                       {a["fn"] for g in unit for b, t in g.calls() for a in t["args"] if a["k"] == "const" and a.get("fn") and prog.fn(a["fn"]) is not None})
+        # (the one classification funnel `genotype::Result::from` and ReadStatus::map belong to the trait method; when the inherent reader
+        # was merged into it they are found here)
+        local = [n for n in local if not (n.endswith("for sfs_core::input::genotype::Result>::from") or n.startswith("sfs_core::input::ReadStatus::<T>::")
+                                          or n.endswith("::Reader::<R>::read_genotypes") or "::read_vcf_genotypes" in n or n == "core::convert::From::from")]
+        own = []
+        for g in unit:
+            for b, i_, p, rv, s_ in g.assigns():
+                if rv["k"] == "aggregate" and (rv.get("adt") or "").startswith("sfs_core::input::genotype::") and rv.get("adt") not in ("sfs_core::input::genotype::reader::%s::Reader" % kind,):
+                    own.append("%s::%s at %s" % (rv["adt"].split("::")[-1], rv.get("variant"), g.loc(b)))
+        chk.ob(rule, "%s::read_genotypes/hands-on-what-was-decoded" % kind, not local and not own, f.loc(),
+               "workspace functions applied to the record in the reader: %s; genotype-level values built in the reader: %s" % (local or "none", own or "none"))
+
+
 def reader_outcomes(chk, rule):
     """a failure of the record reader is an error at every offset: in the two genotype readers `ReadStatus::Done` is constructed only for
     the zero-length successful read, `ReadStatus::Read` only under success of every fallible step, and nothing but `ReadStatus::Error`
@@ -1749,6 +1779,7 @@ def reader_outcomes(chk, rule):
         chk.ob(rule, "%s::read_genotypes/Done-only-on-Ok(0),nothing-but-Error-on-failure" % kind, not bad and n_done == 1 and bool(err_edges), f.loc(),
                "end of input is the zero-length successful read and nothing else; every failure becomes ReadStatus::Error (%s)" % (bad or "ok"))
     one_record_per_call(chk, rule)
+    readers_do_not_judge(chk, rule)
     # the site reader forwards the genotype reader's status: Done stays Done, Error stays Error
     rsite = chk.fn("sfs_core::input::site::reader::Reader::read_site")
     if rsite is not None:
